@@ -32,7 +32,28 @@ func (ft *FuncTr) instr(b *ssa.BasicBlock, st *State, at *Term, in ssa.Instructi
 				ft.nonNil = map[string]bool{}
 			}
 			ft.nonNil[pc.S] = true
-			ft.writeZero(st, at, pc, ty)
+			if ft.allocID == nil {
+				ft.allocID = map[string]*Term{}
+			}
+			idc := ft.d.Fresh("id_"+x.Comment, SInt)
+			ft.assume(at, Eq(idc, PObjID(pc)))
+			ft.allocID[pc.S] = idc
+			{
+				// zero-initialisation writes only the new object
+				arrs := map[string]*Sort{}
+				ft.h.arraysOfTypeMem(ty, arrs)
+				bef := map[string]*Term{}
+				for n, srt := range arrs {
+					bef[n] = ft.h.arr(st, n, srt)
+				}
+				ft.writeZero(st, at, pc, ty)
+				for n, b := range bef {
+					if a, ok := st.heap[n]; ok && a.S != b.S {
+						ft.h.noteFreshFrame(b, a, idc)
+					}
+				}
+				return false, nil
+			}
 		} else {
 			st.locals[x] = ft.w.zero(ft.d, ty)
 			ft.vals[x] = Val{Ref: &LocalRef{alloc: x}}
@@ -91,6 +112,9 @@ func (ft *FuncTr) instr(b *ssa.BasicBlock, st *State, at *Term, in ssa.Instructi
 		mt := x.Map.Type().Underlying().(*types.Map)
 		ft.assert(at, Not(IsNil(m)), "safety.nilmap", exprText(ft, x.Map), "assignment to entry in nil map", x.Pos())
 		ft.mapWriteFrame(st, at, mt, m, x.Pos())
+		if pointerLike(ft.term(x.Value).Sort) || pointerLike(ft.term(x.Key).Sort) {
+			ft.leak()
+		}
 		ft.h.mapSet(st, mt, m, ft.term(x.Key), ft.term(x.Value))
 	case *ssa.MakeMap:
 		mt := x.Type().Underlying().(*types.Map)
@@ -257,11 +281,9 @@ func (h *HeapCtx) box(v *Term) *Term {
 	un := "unbox_" + v.Sort.Mangle()
 	h.d.Fun(bn, []*Sort{v.Sort}, SInt)
 	h.d.Fun(un, []*Sort{SInt}, v.Sort)
-	b := mk(SInt, bn, v)
-	if h.emit != nil {
-		h.emit(Eq(mk(v.Sort, un, b), v))
-	}
-	return b
+	// injectivity of boxing, once per sort
+	h.d.Raw(bn+"$inj", fmt.Sprintf("(assert (forall ((bx %s)) (! (= (%s (%s bx)) bx) :pattern ((%s bx)))))", v.Sort.Name, un, bn, bn))
+	return mk(SInt, bn, v)
 }
 
 // toIface boxes a value of static type ty into an interface value
